@@ -29,6 +29,8 @@ func universeConfigs(r *vk.Run) []Config {
 		if i%4 == 1 {
 			c.MaxPending = uint64(2 + rng.Intn(8))
 		}
+		c.ExecDelayUs = []int{0, 400, 2500}[rng.Intn(3)]
+		c.InjectGaps = rng.Intn(2) == 0
 		out = append(out, c)
 	}
 	return out
